@@ -3,11 +3,13 @@ CONSTANTS
   G = 3
   MaxRings = 2
   Drawings = 1
-  Kinds = {"rect", "dia", "L", "rectD"}
-  MutSeq <- MutThm
-  Modes = {"any"}
+  Kinds = {"rect", "dia", "L"}
+  MutSeq <- MutThmQ
+  ModeSeq <- ModeAny
   MaxSegs = 26
   Styles = {}
+  RolePats <- TwoRolePats
   Theorems = TRUE
+  Tiles = FALSE
 INVARIANTS RayIndependent FillIsXor CancelSound CatalogueValid JudgeAcceptsReference JudgeRejectsSpoiled
 CHECK_DEADLOCK FALSE
